@@ -138,6 +138,8 @@ pub struct History {
     pub initial: usize,
     pub ops: Vec<Op>,
     pub fault: Option<Fault>,
+    /// the second directory is only ever named through a symbolic link to it
+    pub via_link: bool,
 }
 
 impl History {
@@ -157,7 +159,8 @@ impl History {
                 OpKind::ExportAllTo(d, s) => format!("export_all_to(dir{d}, spelling{s})"),
             })).collect::<Vec<_>>(),
             "fault": fault_s,
-            "raw": {"env": self.env, "initial": self.initial, "ops": self.ops.iter().map(|o| match &o.kind {
+            "second_directory_through_symlink": self.via_link,
+            "raw": {"env": self.env, "initial": self.initial, "via_link": self.via_link, "ops": self.ops.iter().map(|o| match &o.kind {
                 OpKind::Export => json!([0, o.t]), OpKind::ExportAll => json!([1, o.t]), OpKind::ExportAllTo(d, s) => json!([2, o.t, d, s]) }).collect::<Vec<_>>(),
                 "fault": self.fault.as_ref().map(|f| json!([f.at, f.kind, f.which]))},
         })
@@ -181,7 +184,7 @@ impl History {
             })
             .collect();
         let fault = r["fault"].as_array().map(|a| Fault { at: a[0].as_u64().unwrap_or(0) as usize, kind: a[1].as_u64().unwrap_or(0) as usize, which: a[2].as_u64().unwrap_or(0) as usize });
-        Some(History { env: r["env"].as_u64()? as usize, initial: r["initial"].as_u64()? as usize, ops, fault })
+        Some(History { env: r["env"].as_u64()? as usize, initial: r["initial"].as_u64()? as usize, ops, fault, via_link: r["via_link"].as_bool().unwrap_or(false) })
     }
 }
 
@@ -201,7 +204,8 @@ pub fn gen_history(words: &[u32], uni: &Uni, with_fault: bool, max_len: usize) -
         ops.push(Op { kind, t: inst });
     }
     let fault = if with_fault { Some(Fault { at: t.choose(ops.len()), kind: t.choose(2), which: t.choose(8) }) } else { None };
-    History { env, initial, ops, fault }
+    let via_link = t.choose(5) == 0;
+    History { env, initial, ops, fault, via_link }
 }
 
 struct Dirs {
@@ -209,9 +213,11 @@ struct Dirs {
     env_value: Option<String>,
     /// canonical absolute directories: [env dir, other dir]
     canon: [String; 2],
+    /// spell the other directory through `<base>/lnkB -> outB`
+    link: bool,
 }
 
-fn dirs_for(base: &std::path::Path, env: usize) -> Dirs {
+fn dirs_for(base: &std::path::Path, env: usize, link: bool) -> Dirs {
     let b = base.to_string_lossy();
     let (env_value, env_canon) = match env {
         0 => (None, format!("{b}/bindings")),
@@ -219,11 +225,12 @@ fn dirs_for(base: &std::path::Path, env: usize) -> Dirs {
         2 => (Some(format!("{b}/abs_env")), format!("{b}/abs_env")),
         _ => (Some("./x/../dots_env/.".to_string()), format!("{b}/dots_env")),
     };
-    Dirs { base: base.to_path_buf(), env_value, canon: [env_canon, format!("{b}/outB")] }
+    Dirs { base: base.to_path_buf(), env_value, canon: [env_canon, format!("{b}/outB")], link }
 }
 
 fn spelling(d: &Dirs, dir: usize, s: usize) -> String {
-    let canon = &d.canon[dir];
+    let linked = format!("{}/lnkB", d.base.to_string_lossy());
+    let canon = if d.link && dir == 1 { &linked } else { &d.canon[dir] };
     let rel = canon.strip_prefix(&format!("{}/", d.base.to_string_lossy())).unwrap_or(canon).to_string();
     match s {
         0 => canon.clone(),
@@ -301,7 +308,11 @@ pub fn run_history(server: &mut Server, p: &Placed, uni: &Uni, h: &History, base
     let rounds = if h.initial == 2 { 2 } else { 1 };
     std::fs::remove_dir_all(base).ok();
     std::fs::create_dir_all(base).map_err(|e| e.to_string())?;
-    let d = dirs_for(base, h.env);
+    let d = dirs_for(base, h.env, h.via_link);
+    if h.via_link {
+        std::fs::create_dir_all(base.join("outB")).map_err(|e| e.to_string())?;
+        std::os::unix::fs::symlink("outB", base.join("lnkB")).map_err(|e| e.to_string())?;
+    }
     server.request(&json!({"cmd": "setenv", "cwd": base.to_string_lossy(), "export_dir": d.env_value}))?;
     let base_s = base.to_string_lossy().into_owned();
     let mut carried: BTreeMap<String, String> = BTreeMap::new();
@@ -608,11 +619,13 @@ pub fn merge_module(p: &Placed, server: &mut Server, cwd: &std::path::Path, seed
         for i in (1..order.len()).rev() {
             order.swap(i, t.choose(i + 1));
         }
-        let mut ops: Vec<Op> = order.iter().map(|t| Op { kind: OpKind::Export, t: *t }).collect();
+        // (a third of the orders: into the second directory, named through a symbolic link)
+        let via_link = t.choose(3) == 0;
+        let mut ops: Vec<Op> = order.iter().map(|i| Op { kind: if via_link { OpKind::ExportAllTo(1, t.choose(8)) } else { OpKind::Export }, t: *i }).collect();
         // re-export two of them at the end (idempotence)
-        ops.push(Op { kind: OpKind::Export, t: order[0] });
-        ops.push(Op { kind: OpKind::ExportAll, t: order[order.len() / 2] });
-        let h = History { env: 2, initial: 0, ops, fault: None };
+        ops.push(Op { kind: if via_link { OpKind::ExportAllTo(1, 0) } else { OpKind::Export }, t: order[0] });
+        ops.push(Op { kind: if via_link { OpKind::ExportAllTo(1, 3) } else { OpKind::ExportAll }, t: order[order.len() / 2] });
+        let h = History { env: 2, initial: 0, ops, fault: None, via_link };
         r.evaluations += 1;
         if uni.ninsts >= 3 {
             r.nontrivial_hashes.push(fnv(&format!("{}/{:?}", p.module.name, order)));
@@ -645,7 +658,7 @@ pub fn merge_module(p: &Placed, server: &mut Server, cwd: &std::path::Path, seed
             for i in (1..order.len()).rev() {
                 order.swap(i, t.choose(i + 1));
             }
-            let d = dirs_for(&base, 2);
+            let d = dirs_for(&base, 2, false);
             std::fs::remove_dir_all(&base).ok();
             std::fs::create_dir_all(&base).ok();
             let _ = server.request(&json!({"cmd": "setenv", "cwd": base.to_string_lossy(), "export_dir": d.env_value}));
@@ -771,6 +784,18 @@ fn nonexportable(ctx: &Ctx, out: &mut Outcome, known: &[Known]) {
     m.types[0].params.clear();
     m.types[0].body = typegen::Body::Named(vec![typegen::Field { ident: Some("a".into()), ..Default::default() }]);
     m.types[0].attrs = typegen::ContainerAttrs { export_to: Some(format!("{}escaped.ts", "../".repeat(40))), ..Default::default() };
+    // a type with an ordinary path of its own that depends on the escaped one: its import of the
+    // dependency cannot be spelled, so the export has to fail as a whole (nothing written)
+    let mut outer = m.types[0].clone();
+    outer.ident = format!("{}Outer", outer.ident.trim_start_matches("r#"));
+    outer.attrs = Default::default();
+    outer.docs = None;
+    outer.body = typegen::Body::Named(vec![
+        typegen::Field { ident: Some("inner".into()), ty: typegen::TyExpr::Vec(Box::new(typegen::TyExpr::User(0, vec![]))), ..Default::default() },
+        typegen::Field { ident: Some("b".into()), ..Default::default() },
+    ]);
+    m.types.push(outer);
+    m.insts.push(typegen::TyExpr::User(1, vec![]));
     let id = m.types[0].ident.clone();
     m.extra_roots = vec!["i32".into(), "String".into(), format!("Vec<{id}>"), format!("Option<{id}>"), format!("({id}, {id})"), format!("std::collections::HashMap<String, {id}>"), "()".into()];
     let n_insts = m.insts.len();
@@ -785,7 +810,7 @@ fn nonexportable(ctx: &Ctx, out: &mut Outcome, known: &[Known]) {
                 r.evaluations += 1;
                 let before = snapshot(cwd);
                 let resp = s.request(&json!({"cmd": "export", "m": p.index, "t": t, "how": how, "dir": dir.to_string_lossy()}));
-                let label = if t < n_insts { "type whose export_to climbs above the root".to_string() } else { p.module.extra_roots[t - n_insts].clone() };
+                let label = if t == 0 { "type whose export_to climbs above the root".to_string() } else if t < n_insts { "type that depends on a type whose export_to climbs above the root".to_string() } else { p.module.extra_roots[t - n_insts].clone() };
                 match resp {
                     Err(e) => r.failures.push(json!({"signature": format!("server-{e}"), "message": format!("{how} of {label}: server {e}"), "case": case_of(p, json!({}))})),
                     Ok(v) if v.get("err").is_some() => {
